@@ -395,6 +395,15 @@ CMP_FLIP = {"<": ">", ">": "<", "<=": ">=", ">=": "<=", "==": "==", "!=": "!="}
 CMP_NEG = {"<": ">=", ">": "<=", "<=": ">", ">=": "<", "==": "!=", "!=": "=="}
 
 
+def peel_not(n):
+    """the comparison (or other expression) under any number of logical negations and parentheses: !(a == b) -> a == b.
+    Use together with norm_cmp, which accounts for the polarity."""
+    n = strip(n)
+    while isnode(n) and ((n["k"] == "UnaryOperator" and n.get("op") == "!") or n["k"] == "ParenExpr"):
+        n = strip(n.get("sub") if n["k"] == "UnaryOperator" else (n.get("sub") or (n.get("c") or [None])[0]))
+    return n
+
+
 def norm_cmp(n):
     """Normalise a comparison to (op, lhs_key, rhs_key) with op in {<,<=,==,!=} and, for
     symmetric ops, ordered operands; `!(a >= b)` == `a < b` == `b > a`. Returns None when
